@@ -19,11 +19,13 @@ EXTENDS Ops
 LenOps == {"zip", "eq", "lt", "split", "pop_back", "pop_front", "remove", "append_ann", "prepend_ann",
            "concat_ann", "into_array", "from_array", "asref_array", "into_tuple", "from_tuple",
            "flatten_ann", "unflatten_ann", "split_ann", "pop_ann", "map_ann", "zip_ann", "from_slice_infer",
-           "from_chunks", "from_chunks_mut", "into_chunks", "into_chunks_mut"}
+           "from_chunks", "from_chunks_mut", "into_chunks", "into_chunks_mut", "const_len", "const_len_into",
+           "inverted_zip", "inverted_zip2", "inverted_zip2_ref"}
 
 \* n, m: operand lengths; k: the length written in the program (annotation / const parameter)
 Accept(op, n, m, k) ==
-    CASE op \in {"zip", "eq", "lt"} -> n = m
+    \* (the inverted forms are what zip dispatches to; they are public trait methods and relate the two lengths themselves)
+    CASE op \in {"zip", "eq", "lt", "inverted_zip", "inverted_zip2", "inverted_zip2_ref"} -> n = m
       [] op = "split" -> k <= n
       [] op \in {"pop_back", "pop_front", "remove"} -> n >= 1
       [] op \in {"append_ann", "prepend_ann"} -> k = n + 1
@@ -33,6 +35,9 @@ Accept(op, n, m, k) ==
       [] op \in {"into_array", "from_array", "asref_array", "from_slice_infer"} -> k = n
       \* slices of native arrays [T; k] <-> slices of GenericArray<T, n>: the same length
       [] op \in {"from_chunks", "from_chunks_mut", "into_chunks", "into_chunks_mut"} -> k = n
+      \* the const-generic spelling of a length, ConstArrayLength<k> (= <Const<k> as IntoArrayLength>::ArrayLength),
+      \* names the same type as the typenum Un exactly when k = n
+      [] op \in {"const_len", "const_len_into"} -> k = n
       [] op \in {"into_tuple", "from_tuple"} -> k = n /\ k \in 1..12
       [] op = "flatten_ann" -> k = n * m
       [] op = "unflatten_ann" -> m >= 1 /\ n % m = 0 /\ k = n \div m
